@@ -201,7 +201,7 @@ class CallMixin:
                 fi = self.prog.find_method(self.prog.metaclass_of(v.name), '__len__')
                 return self.call_function(fi, [self.class_ref(v)], {})
             if isinstance(v, VRef) and v.typ == ty.ANY:
-                return self.external_call('len', None, [v], {})
+                return VInt(self.llen(VRef(v.term, ty.parse('list[any]'), v.st)))
             raise Unsupported(f'len of {type(v).__name__}')
         if name == 'range':
             if len(args) == 1:
@@ -293,6 +293,10 @@ class CallMixin:
             return VCls(z3.IntVal(self.cls_id('list')), 'list')
         if isinstance(v, VRef) and isinstance(v.typ, ty.TDict):
             return VCls(z3.IntVal(self.cls_id('dict')), 'dict')
+        if isinstance(v, VRef) and isinstance(v.typ, ty.TRef) and v.typ.cls in self.prog.classes \
+                and not v.nullable and not any(c != v.typ.cls and self.prog.is_subclass(c, v.typ.cls)
+                                               for c in self.prog.classes) and v.typ.cls in self.final_classes:
+            return VCls(z3.IntVal(self.cls_id(v.typ.cls)), v.typ.cls)
         if isinstance(v, VRef):
             t = self.class_of(v)
             r = VCls(t, None)
